@@ -179,6 +179,7 @@ class NpRef:
             r = T(a) if bool(c) else T(b)
             return r
         vals = [self.eval(o) for o in ops]
+        self._cur = e
         r = self._apply(kind, vals)
         self._flag(kind, r, vals)
         return r
@@ -277,7 +278,12 @@ class NpRef:
         if fn is not None:
             return fn(v[0])
         if kind == "pow":
-            return v[0] ** v[1]  # the numpy target emits the ** operator on numpy scalars
+            # the numpy target emits the ** operator.  On two numpy scalars that is numpy's scalar-math pow; when an
+            # operand is a 0-d array (numpy.where of a select) it is the ufunc loop, which for float32 may differ by
+            # one ULP.  Both are "numpy's pow"; ufunc_pow (a set of node ids) selects the second form per node.
+            if id(getattr(self, "_cur", None)) in getattr(self, "ufunc_pow", ()):
+                return np.power(np.asarray(v[0]), np.asarray(v[1]))[()]
+            return v[0] ** v[1]
         fn2 = {"atan2": np.arctan2, "hypot": np.hypot, "copysign": np.copysign, "nextafter": np.nextafter}.get(kind)
         if fn2 is not None:
             return fn2(v[0], v[1])
